@@ -120,7 +120,14 @@ def drive_default(chk, rng, n):
     dims = {}
     for nm in canon:
         dims.setdefault(frozenset(dict(ureg.get_dimensionality(nm)).items()), []).append(nm)
-    classes = [v for v in dims.values() if len(v) > 1]
+    # ordering is claimed for positively scaled units only (electron_g_factor and friends are negative constants)
+    positive = {}
+    for nm in canon:
+        try:
+            positive[nm] = ureg.get_root_units(nm)[0] > 0
+        except Exception:
+            positive[nm] = False
+    classes = [w for w in ([n for n in v if positive[n]] for v in dims.values()) if len(w) > 1]
     mags = [F(1), F(0), F(-3), F(7, 2), F(254, 100), F(1, 3), F(1000)]
     events = []
     while len(events) < n:
